@@ -133,12 +133,13 @@ static ssize_t do_read(int fd, void *buf, size_t n, int flags, int is_recv,
         errno = EBADF;
         return -1;
     }
-    if (sim_decide(F_EINTR_R, lid, k, &prm)) {
+    int nb = is_nonblock(fd) || (flags & MSG_DONTWAIT);
+    /* a signal can only interrupt a call that sleeps: on Linux a non-blocking transfer never returns EINTR */
+    if (!nb && sim_decide(F_EINTR_R, lid, k, &prm)) {
         sim_fault_fired(F_EINTR_R, lid, k, 0);
         errno = EINTR;
         return -1;
     }
-    int nb = is_nonblock(fd) || (flags & MSG_DONTWAIT);
     if (nb && sim_decide(F_EAGAIN_R, lid, k, &prm)) {
         sim_fault_fired(F_EAGAIN_R, lid, k, 0);
         f->owed |= EPOLLIN;
@@ -206,12 +207,12 @@ static ssize_t do_write(int fd, const void *buf, size_t n, int flags, int is_sen
         errno = EBADF;
         return -1;
     }
-    if (sim_decide(F_EINTR_W, lid, k, &prm)) {
+    int nb = is_nonblock(fd) || (flags & MSG_DONTWAIT);
+    if (!nb && sim_decide(F_EINTR_W, lid, k, &prm)) {
         sim_fault_fired(F_EINTR_W, lid, k, 0);
         errno = EINTR;
         return -1;
     }
-    int nb = is_nonblock(fd) || (flags & MSG_DONTWAIT);
     if (nb && sim_decide(F_EAGAIN_W, lid, k, &prm)) {
         sim_fault_fired(F_EAGAIN_W, lid, k, 0);
         f->owed |= EPOLLOUT;
@@ -352,7 +353,7 @@ int __wrap_accept4(int fd, struct sockaddr *a, socklen_t *l, int flags) {
     int64_t prm;
     if (f) {
         uint64_t k = f->nr++;
-        if (sim_decide(F_EINTR_R, (uint32_t) f->lid, k, &prm)) {
+        if (!is_nonblock(fd) && sim_decide(F_EINTR_R, (uint32_t) f->lid, k, &prm)) {
             sim_fault_fired(F_EINTR_R, (uint32_t) f->lid, k, 0);
             errno = EINTR;
             return -1;
